@@ -59,3 +59,29 @@ pub fn fnv(data: &[u8]) -> u64 {
     }
     h & 0x7fff_ffff
 }
+
+/// length of the connection ids each side issues (learnt from the source connection id of its long-header packets);
+/// one run at a time per thread
+thread_local! {
+    pub static CIDLEN: std::cell::Cell<[usize; 2]> = const { std::cell::Cell::new([0, 0]) };
+}
+pub fn side(ep: &str) -> usize { if ep == "c" { 0 } else { 1 } }
+
+/// (destination connection id hash, source connection id hash or -1) of the first packet of a datagram addressed to `to`
+pub fn datagram_ids(p: &[u8], from: &str, to: &str, learn: bool) -> (i64, i64) {
+    if p.len() < 7 { return (-1, -1); }
+    if p[0] & 0x80 != 0 {
+        let dl = p[5] as usize;
+        if p.len() < 7 + dl { return (-1, -1); }
+        let dcid = &p[6..6 + dl];
+        let sl = p[6 + dl] as usize;
+        if p.len() < 7 + dl + sl { return (fnv(dcid) as i64, -1); }
+        let scid = &p[7 + dl..7 + dl + sl];
+        if learn && sl > 0 { CIDLEN.with(|c| { let mut v = c.get(); v[side(from)] = sl; c.set(v); }); }
+        (fnv(dcid) as i64, fnv(scid) as i64)
+    } else {
+        let n = CIDLEN.with(|c| c.get()[side(to)]);
+        if n == 0 || p.len() < 1 + n { return (-1, -1); }
+        (fnv(&p[1..1 + n]) as i64, -1)
+    }
+}
